@@ -1120,6 +1120,11 @@ pub(crate) struct CWIL {
 }
 
 impl CWIL {
+    #[cfg(feature = "verif_hooks")]
+    pub(crate) fn verif_depth(&self) -> usize {
+        self.limits.len()
+    }
+
     pub(crate) fn new() -> Self {
         CWIL {
             local_count: 0,
